@@ -131,6 +131,14 @@ CHECKS["C12"] = (
     "5/C12",
 )
 
+CHECKS["C11"] = (
+    "Serial.tla + TracePipeline.tla",
+    "TLC: the name-keyed dictionary form as a state machine (object -> dict -> parsed -> redumped) with the action property RoundTrip for uniquely named documents (names with collisions and case variants; a case-insensitive lookup is refuted); documents of all four model classes (random unique names incl. case variants, colours, float-infinite cost, labelled / unlabelled, solver outputs up to 8 leaves) go through from_dict(json(to_dict())) and the projected documents before / after / after re-serialisation are judged by a TLA+ trace spec",
+    "Model checking of the serialisation scheme plus trace validation of real round trips; the specification's part is small (an encode/decode property), the weight is on the validated round trips.",
+    "Trusts TLC, Serial.tla and the document projection of lib/docproj.py; only the fields the property lists are compared; nodes uniquely named.",
+    "5/C11",
+)
+
 NOT_YET = {}
 
 
